@@ -107,7 +107,7 @@ def gen_expr(rng, mode):
 def gen_sandbox(rng, mode):
     link_kinds = ("file", "dir", "dangling", "outside", "ancestor") if mode == "P" else ("dangling",)
     nodes = treegen.random_tree(rng, "r", max_nodes=rng.choice([6, 14, 28]), max_depth=4, names=NAMES, p_link=0.2,
-                                link_kinds=link_kinds, sizes=(0, 0, 1, 5, 700))
+                                link_kinds=link_kinds, sizes=(0, 0, 1, 5, 700), special=rng.random() < 0.35)
     for n in nodes:
         if n.kind == "f" and rng.random() < 0.2:
             n.mode = 0o600
@@ -125,6 +125,12 @@ def gen_sandbox(rng, mode):
                 nodes.append(treegen.Node(pth, kind, size=rng.choice([0, 3])))
                 if kind == "d":
                     dirs_.append(pth)
+    if rng.random() < 0.25:
+        dirs_ = [n.path for n in nodes if n.kind == "d" and n.path.startswith("r")]
+        for nm, kind in rng.sample([("cdev", "c"), ("bdev", "b"), ("pipe", "p"), ("sock", "s")], rng.randint(1, 3)):
+            pth = rng.choice(dirs_) + "/" + nm
+            if all(n.path != pth for n in nodes):
+                nodes.append(treegen.Node(pth, kind))
     nodes.append(treegen.Node("sibling", "d"))
     nodes.append(treegen.Node("sibling/keep", "f", size=4))
     nodes.append(treegen.Node("lroot", "l", target="r"))
@@ -142,10 +148,12 @@ def gen_sandbox(rng, mode):
     return nodes
 
 
-def replay_on_twin(twin, printed):
+def replay_on_twin(twin, printed, stop_at_failure=False):
     """Apply the model: in the printed order, rmdir real directories, unlink everything else. -> attempts list."""
     attempts = []
     for p in printed:
+        if stop_at_failure and attempts and not attempts[-1][2]:
+            break
         ap = os.path.join(twin, p)
         try:
             if os.path.isdir(ap) and not os.path.islink(ap):
@@ -228,12 +236,22 @@ def worker(job):
                                {"tree": [n.to_json() for n in nodes], "args": prn[1:]})
             except (refeval.ParseError, ValueError) as e:
                 raise common.Inconclusive("reference evaluator cannot parse %r: %s" % (expr, e))
-            shutil.copytree(sb, twin, symlinks=True)
+            if any(n_.kind in "pscb" for n_ in nodes):
+                st.inc("sandboxes_with_fifo_socket_or_device")
+                treegen.build(twin, nodes)           # (copytree cannot copy special files)
+            else:
+                shutil.copytree(sb, twin, symlinks=True)
             before_out = treegen.snapshot(os.path.join(sb, "out"))
-            exp_attempts = replay_on_twin(twin, printed)
+            # one run in five: "stop at the first entry that cannot be removed" - ( -delete -o -quit ); a failed removal is
+            # reported in the exit status also when -quit is evaluated on that very entry
+            quit_after_failure = rng.random() < 0.2
+            exp_attempts = replay_on_twin(twin, printed, stop_at_failure=quit_after_failure)
             slog = os.path.join(base, "strace-%d.log" % t)
+            tail = ["(", "-delete", "-printf", "D:%p\\0", "-o", "-quit", ")"] if quit_after_failure else ["-delete", "-printf", "D:%p\\0"]
+            if quit_after_failure:
+                st.inc("runs_with_quit_after_the_first_failed_removal")
             dele = ["strace", "-f", "-qq", "-s", "4096", "-o", slog, "-e", "trace=" + MUTATING,
-                    common.FIND] + flag + roots + ["-sorted"] + expr + ["-delete", "-printf", "D:%p\\0"]
+                    common.FIND] + flag + roots + ["-sorted"] + expr + tail
             rc, out, err, to = common.run_cmd(dele, cwd=sb, env=env, timeout=120)
             st.inc("evaluations")
             st.inc("runs_mode_" + mode)
